@@ -350,44 +350,8 @@ func checkC09(c *Check) {
 		}
 		c.floor("C09.4 transport-error-silent", rdr, 1, "reader-error returns in "+fnName)
 	}
-	// handleNotificationInErr sends only outgoing notifications
-	if h := p.Fn("fsm.handleNotificationInErr"); h != nil {
-		a := NewAnalysis(p, h)
-		a.AtomHook = func(e *Expr) (ISet, bool) {
-			if isFieldRead(e, "out") {
-				return isConst(0), true
-			}
-			return nil, false
-		}
-		a.Run()
-		ok := true
-		for _, r := range a.Returns {
-			if r.State.may["call:fsm.sendNotification"] {
-				ok = false
-			}
-		}
-		c.require(ok && len(a.Returns) > 0, "C09.4 transport-error-silent", "fsm.handleNotificationInErr", "out=false never sent", p.Pos(h.Pos()),
-			"a received notification (out=false) is never sent back")
-		a2 := NewAnalysis(p, h)
-		a2.AtomHook = hooks(func(e *Expr) (ISet, bool) {
-			if isFieldRead(e, "out") {
-				return isConst(1), true
-			}
-			if e.Op == "call" && strings.HasPrefix(e.S, "errors.As:") {
-				return isConst(1), true
-			}
-			return nil, false
-		})
-		a2.Run()
-		ok = len(a2.Returns) > 0
-		for _, r := range a2.Returns {
-			if !r.State.must["call:fsm.sendNotification"] {
-				ok = false
-			}
-		}
-		c.require(ok, "C08.2 notification-sent", "fsm.handleNotificationInErr", "out=true sent", p.Pos(h.Pos()),
-			"an outgoing notificationError found with errors.As is passed to sendNotification on every path")
-	}
+	c.notifInErr("C09.4 transport-error-silent", "C08.2 notification-sent")
+	c.writeUpdateContract("C09.6 callbacks-return")
 	c.readerHandoff()
 	c.transitionRelation("C09.5 transition-relation")
 	c.cleanupOnExit("C09.6 cleanup-on-exit")
@@ -650,4 +614,49 @@ func (c *Check) cleanupContract(rule string) {
 			"the connection is closed before the reader goroutine is waited for (a reader parked in Read is woken by nothing else)")
 	})
 	c.floor(rule, nj, 1, "joins of the reader in cleanupConnAndReader")
+}
+
+// notifInErr: handleNotificationInErr sends exactly the outgoing
+// notifications, found anywhere in the error's tree (errors.As: the reader and
+// the state functions wrap their errors).
+func (c *Check) notifInErr(ruleIn, ruleOut string) {
+	p := c.P
+	// handleNotificationInErr sends only outgoing notifications
+	if h := p.Fn("fsm.handleNotificationInErr"); h != nil {
+		a := NewAnalysis(p, h)
+		a.AtomHook = func(e *Expr) (ISet, bool) {
+			if isFieldRead(e, "out") {
+				return isConst(0), true
+			}
+			return nil, false
+		}
+		a.Run()
+		ok := true
+		for _, r := range a.Returns {
+			if r.State.may["call:fsm.sendNotification"] {
+				ok = false
+			}
+		}
+		c.require(ok && len(a.Returns) > 0, ruleIn, "fsm.handleNotificationInErr", "out=false never sent", p.Pos(h.Pos()),
+			"a received notification (out=false) is never sent back")
+		a2 := NewAnalysis(p, h)
+		a2.AtomHook = hooks(func(e *Expr) (ISet, bool) {
+			if isFieldRead(e, "out") {
+				return isConst(1), true
+			}
+			if e.Op == "call" && strings.HasPrefix(e.S, "errors.As:") {
+				return isConst(1), true
+			}
+			return nil, false
+		})
+		a2.Run()
+		ok = len(a2.Returns) > 0
+		for _, r := range a2.Returns {
+			if !r.State.must["call:fsm.sendNotification"] {
+				ok = false
+			}
+		}
+		c.require(ok, ruleOut, "fsm.handleNotificationInErr", "out=true sent", p.Pos(h.Pos()),
+			"an outgoing notificationError found with errors.As is passed to sendNotification on every path")
+	}
 }
